@@ -220,10 +220,15 @@ def chain_obligations(R, seed, tier):
     import aurel.coresymbolic as CS
     orders = [KEYS[1:], list(reversed(KEYS[1:])),
               ['Ricci_down', 'Riemann_down', 'Riemann_uddd', 'Riemann_down', 'Ricci_down', 'Einstein_down', 'RicciS', 'Gamma_down']]
-    cfgs = [(2, False), (3, False)] + ([(4, False), (2, True)] if tier != 'quick' else [])
+    cfgs = [(2, False), (3, False)] + ([(2, True), (4, False)] if tier != 'quick' else [])
+    t_chain = time.time()
+    budget = 900                      # wall-clock budget of the thorough extras (sympy on 4 dimensions is slow)
     for n, simplify in cfgs:
         W = World(n, seed, explicit=True)
         for oi, order in enumerate(orders):
+            if (n, simplify) in ((2, True), (4, False)) and time.time() - t_chain > budget:
+                R.notes.append(f'chain n={n} simplify={simplify} order#{oi}: not run (time budget of {budget} s for the thorough extras used up); covered by the per-function obligations')
+                continue
             t0 = time.time()
             rel = CS.AurelCoreSymbolic(list(W.coords), verbose=False, simplify=simplify)
             rel.data['gdown'] = W.explicit_metric
@@ -236,7 +241,7 @@ def chain_obligations(R, seed, tier):
             old = signal.signal(signal.SIGALRM, _alarm)
             try:
                 for k in order:
-                    signal.alarm(300 if simplify else 900)
+                    signal.alarm(240 if (simplify or n == 4) else 900)
                     v = rel[k]
                     signal.alarm(0)
                     reached.append(k)
